@@ -240,13 +240,14 @@ private:
     }
 
     while (n) {
+      // k: steps available before the beginning of the current inner range
       difference_type k =
-          std::distance(m_inner_begin_fn(*m_outer), this->base_reference()) + 1;
-      if (k == 1) {
+          std::distance(m_inner_begin_fn(*m_outer), this->base_reference());
+      if (k == 0) {
         decrement();
         --n;
       } else if (k < n) {
-        seek_backward();
+        std::advance(this->base_reference(), -k);
         n -= k;
       } else {
         std::advance(this->base_reference(), -n);
